@@ -470,6 +470,9 @@ Definition run_step (g : cfg) (s : st) (e : env) (d : nat -> nat) (p : step)
       match k, get e src with
       | BAliasThenMissing name, Some _ =>
           (set_rg s (add_alias (add_seq (rg s) (d 1)) name (d 1)), None, Some OErr)
+      | BBadJoin, Some f =>       (* the right frame's CTEs are added (a duplicated VALUES gets a new alias) before join() raises *)
+          let '(fl, _) := wrap g (op_from g) f in
+          (mkSt (rg s) (views s) (scache s) (eviews s) (counter s + join_ctr d fl f), None, Some OErr)
       | BMissingView, _ =>        (* session.sql builds a DataFrame (two id draws); the engine raises on execution *)
           (set_rg s (add_seq (add_branch (rg s) (d 0)) (d 1)), None, Some OErr)
       | _, _ => (s, None, Some OErr)
